@@ -21,6 +21,7 @@ EXPLANATION = (
     'successor is given the current value; D5 routing: split_node / indexer_node port i forwards element / tag i.  FIFO / '
     'sequence / priority order as properties of histories and the item-buffer ring arithmetic are NOT decided.')
 EXPLANATION += ' Added after the seeded-change rounds: ' + 'D1 also: decrement_counter reads my_count only before it writes it; whenever my_count can go down the admission condition is evaluated again on every path; D2 also: hash_buffer::insert_with_key leaves the buffer untouched on the paths that return false, and the status of a key-matching put is derived from the insertion result.'
+EXPLANATION += ' Added in the third session (round-3 seeds and the findings they led to): ' + 'D3 also: priority_queue_node::reheap looks at children below mark only (rule shared with C13) and every copy constructor takes user-supplied state (functors, parameters) from its source.'
 ASSUMPTIONS = ['node kinds instantiated in drivers/flow.cpp', 'aggregator serialises buffer handlers (C13-D1, C14-D1/D2)']
 ND = ['FIFO / sequence / priority order as history properties', 'item-buffer ring arithmetic', 'key-matching counting']
 LOCKCLS = lambda c: c.endswith('scoped_lock')   # noqa: E731
